@@ -38,6 +38,12 @@ CLAIMED = {
             'validity predicate over the limit box, differential count vs generate',
             'Exhaustive over the stated core, random beyond; every pattern is compared as a set against brute force.',
             'Trusted: vf/refconn.py (per-pair limit rule as documented on get_max_conn_parallel).'),
+    'C10': ('property-based testing: Hypothesis-generated connector settings x all 150+ registry (encoder, imputer) '
+            'combinations x full declared vector space + out-of-range/too-long vectors, oracle = R-CONN validity, round '
+            'trip (fixed point), onto-ness and listing equality',
+            'Generated-input search; per pattern the image of the declared space is compared as a set with the '
+            'brute-force reference set. Combinations declaring > 3000 vectors are excluded and counted.',
+            'Trusted: vf/refconn.py; the two constraint-violation imputers are documented not to impute (all -1 marker).'),
 }
 
 NOT_YET = 'check not built yet in this session (see DESIGN.md 6 for the plan); will be claimed once it is registered'
